@@ -211,8 +211,15 @@ func (d *dev) isFieldLoad(t *Term, name string) bool {
 	if f == nil || t == nil {
 		return false
 	}
-	_, ok := t.FieldLoad(f)
-	return ok
+	if _, ok := t.FieldLoad(f); ok {
+		return true
+	}
+	// the same value seen through a named type with the same representation (`heldActions(d.actionTracker)`)
+	if s := t.StripConv(); s != t {
+		_, ok := s.FieldLoad(f)
+		return ok
+	}
+	return false
 }
 
 // midiEvent is a decoded 3-byte event literal sent on a channel.
